@@ -15,7 +15,7 @@ from sim import world as Wd
 ID = 'C15'
 LEVEL = 'fault_enumeration'
 ENGINE = 'crash'
-BUDGET = {'quick': 1200, 'thorough': 20000}
+BUDGET = {'quick': 900, 'thorough': 20000}
 WALL = {'quick': 50, 'thorough': 1800}
 RULE = ('scenarios: trash-restore (single / multi index; file, deep directory, symlink; same-volume and cross-volume destination so that copy '
         'and delete steps are crash points), trash-empty (with/without DAYS, several trash dirs, orphans), trash-rm (several matches); ALL '
@@ -47,11 +47,11 @@ def gen(rng):
         # original location: same volume as the trash dir, or (for restore) another one
         if cmd == 'trash-restore' and rng.random() < 0.35 and L['vols']:
             other = rng.choice([v for v in ['/'] + L['vols'] if v != (top or ML.volume_of(['/'] + L['mounts'], tdir))] or ['/'])
-            loc = (home + '/w/' + nm) if other == '/' else (other + '/docs/' + nm)
+            loc = (home + '/w/' + nm) if other == '/' else (L['work'][other] + '/' + nm)
             pv = TG.pct(loc)
             cross = True
         else:
-            loc = (home + '/w/' + nm) if top is None else (top + '/docs/' + nm)
+            loc = (home + '/w/' + nm) if top is None else (L['work'][top] + '/' + nm)
             pv = TG.pct(loc if top is None else loc[len(top) + 1:])
         date = '20%02d-01-01T00:00:00' % rng.randint(10, 24)
         if kind == 'deep':
